@@ -139,6 +139,7 @@ package protocol
 //@ spec size(v *VLAN) = 4
 //@ spec wf(v *VLAN) = v.PCP < 8 && v.DEI < 2 && v.VID < 4096
 
+//@ spec wfl(e *Ethernet) = (e.Data != nil ==> wfl(e.Data))
 //@ spec size(e *Ethernet) = 14 + ite(e.VLANID.VID != 0, 4, 0) + ite(e.Data != nil, size(e.Data), 0)
 //@ spec wf(e *Ethernet) = len(e.HWDst) == 6 && len(e.HWSrc) == 6 && wf(e.VLANID) && (e.Data != nil ==> wf(e.Data))
 
@@ -157,6 +158,7 @@ package protocol
 //@ spec size(t *TCP) = 20 + len(t.Data)
 //@ spec wf(t *TCP) = t.HdrLen < 16 && t.Code < 64
 
+//@ spec wfl(i *IPv4) = (i.Data != nil ==> wfl(i.Data))
 //@ spec ihl(i *IPv4) = ite(i.IHL < 5, 5, int(i.IHL))
 //@ spec size(i *IPv4) = 4*ihl(i) + ite(i.Data != nil, size(i.Data), 0)
 //@ spec wf(i *IPv4) = i.Version < 16 && i.IHL < 16 && i.DSCP < 64 && i.ECN < 4 && i.Flags < 8 && i.FragmentOffset < 8192 && blen(i.Options) == 4*ihl(i) - 20 && (i.Data != nil ==> wf(i.Data))
@@ -223,6 +225,7 @@ package protocol
 
 // IPv6: extension headers in the canonical order hop-by-hop, routing, fragment; each is present exactly when the
 // next-header chain names it (the encoder follows the chain, the size function counts the non-nil headers).
+//@ spec wfl(i *IPv6) = wfl(i.Data)
 //@ spec nh1(i *IPv6) = ite(i.HbhHeader != nil, i.HbhHeader.NextHeader, i.NextHeader)
 //@ spec nh2(i *IPv6) = ite(i.RoutingHeader != nil, i.RoutingHeader.NextHeader, nh1(i))
 //@ spec nh3(i *IPv6) = ite(i.FragmentHeader != nil, i.FragmentHeader.NextHeader, nh2(i))
